@@ -44,8 +44,10 @@ def run_main(task):
             e_list, d_list = [b'keep-sorted'], [b'line-count']
         diff_ok = I.fresh_bool('diff_ok')
         has_viol = I.fresh_bool('has_violations')
+        # does the selection hold any block at all?  (an empty selection is still listed, as `{}`)
+        blocks_empty = I.branch(I.fresh_bool('blocks_empty'))
         sym = dict(tty=tty, envset=envset, globs_empty=globs_empty, is_list=is_list, both_flags=both_flags,
-                   diff_ok=diff_ok, has_viol=has_viol, enabled=[x.decode() for x in e_list], disabled=[x.decode() for x in d_list])
+                   diff_ok=diff_ok, has_viol=has_viol, blocks_empty=blocks_empty, enabled=[x.decode() for x in e_list], disabled=[x.decode() for x in d_list])
         calls = []
         holder.update(sym=sym, calls=calls)
         cmd = NONE
@@ -107,7 +109,9 @@ def run_main(task):
             pc = I2.deref_value(a[3])
             gs = get_field(prog, pc, 'PathCheckerImpl', 'glob_set')
             calls.append(('parse_blocks', len(a[0].entries), a[1], gs.f[1]))
-            return Ok(MapVal((), 'HashMap'))
+            if blocks_empty:
+                return Ok(MapVal((), 'HashMap'))
+            return Ok(MapVal([Tuple(new_string(I2, b'a.py'), Opaque('FileBlocks'))], 'HashMap'))
         st['parse_blocks'] = pb
         st['ValidationContext::to_serializable_report'] = lambda I2, a, ci, dt: (calls.append(('report',)), MapVal((), 'HashMap'))[1]
         st['stdout'] = lambda I2, a, ci, dt: Opaque('stdout')
@@ -182,6 +186,11 @@ def run_main(task):
             if 'report' not in names_called or 'print' not in names_called or 'detect' in names_called or val.v != 0:
                 viol(I, z3.BoolVal(True), 'list-wiring-wrong', '`list`: calls %s, result %s' % (names_called, 'Ok' if val.v == 0 else 'Err'))
             out['cover']['main:list'] = 1
+        elif s['blocks_empty']:
+            # nothing selected: whether the validators are set up at all is not observable; nothing may be reported
+            if 'process_violations' in names_called and 'run' not in names_called:
+                viol(I, z3.BoolVal(True), 'report-wiring-wrong', 'process_violations called without a run')
+            out['cover']['main:validate-empty'] = 1
         else:
             if names_called.count('detect') != 1 or names_called.count('run') != 1:
                 viol(I, z3.BoolVal(True), 'validation-wiring-wrong', 'calls %s' % names_called)
@@ -205,6 +214,9 @@ def confirm_main(binary, prop, v, idx):
     files = {'a.py': b'# <block name="x" keep-sorted>\nb\na\n# </block>\n',
              'other/b.py': b'# <block name="y" keep-sorted>\na\nb\n# </block>\n'}
     inp = v.get('inputs', {})
+    if inp.get('blocks_empty'):
+        # the same files without a single block: the selection is empty
+        files = {'a.py': b'x = 1\n', 'other/b.py': b'y = 2\n'}
     env = {'BLOCKWATCH_TERMINAL_MODE': '1'} if (inp.get('envset') or inp.get('tty')) else None
     globs = [] if inp.get('globs_empty', True) else ['a.py']
     extra = ['list'] if inp.get('is_list') else []
@@ -220,6 +232,9 @@ def confirm_main(binary, prop, v, idx):
     scanned = terminal or bool(globs)
     if inp.get('both_flags'):
         ok = r['code'] != 0 and r['diags'] is None
+    elif inp.get('blocks_empty'):
+        # an empty selection: `list` prints an empty JSON object, validation prints nothing; both exit 0
+        ok = r['code'] == 0 and (r['stdout'].strip() == '{}' if inp.get('is_list') else r['diags'] is None)
     elif inp.get('is_list'):
         # the file outside the glob is listed exactly when everything is scanned by default
         ok = r['code'] == 0 and (('"x"' in r['stdout']) == scanned) and (('"y"' in r['stdout']) == (terminal and not globs))
